@@ -169,7 +169,53 @@ Theorem C20_member_list_is_spec :
 Proof. exact member_list_is_spec. Qed.
 Print Assumptions C20_member_list_is_spec.
 
+(* shared addresses.  One report, whatever member GetByHost picks ([ch]):
+   nobody at the address — nothing happens; otherwise exactly one member at
+   that address goes and the agent is told the new list.  Conversely each
+   such outcome is the step for the choice of that member. *)
+Theorem C20_leave_any_choice :
+  forall (self : member) (hist : list pmsg) (chs : list (option nat)) (ch : option nat) (a : nat),
+    let s := pafter_ch self hist chs in
+    ((forall i m, s !! i = Some m -> mhost m <> a) /\ pstep_ch ch s (LeaveAddr a) = (s, [])) \/
+    (exists i m, s !! i = Some m /\ mhost m = a /\
+       pstep_ch ch s (LeaveAddr a) = (delete i s, [ToAgent (slice (delete i s))])).
+Proof. intros self hist chs ch a. apply leave_ch_step. exact (pafter_ch_keyed self hist chs). Qed.
+Print Assumptions C20_leave_any_choice.
+
+Theorem C20_leave_choice_realised :
+  forall (self : member) (hist : list pmsg) (chs : list (option nat)) (a i : nat) (m : member),
+    let s := pafter_ch self hist chs in
+    s !! i = Some m -> mhost m = a ->
+    pstep_ch (Some i) s (LeaveAddr a) = (delete i s, [ToAgent (slice (delete i s))]).
+Proof. intros self hist chs a i m. apply leave_ch_step_chosen. exact (pafter_ch_keyed self hist chs). Qed.
+Print Assumptions C20_leave_choice_realised.
+
+(* k reports for an address with m members behind it (any choices, any
+   reachable state): max(m-k,0) of them are left, members at other addresses
+   are untouched, nobody is added; the agent is told at exactly the first
+   min(k,m) reports — those that changed the list — and not afterwards *)
+Theorem C20_repeated_reports :
+  forall (self : member) (hist : list pmsg) (chs0 : list (option nat)) (a : nat) (chs : list (option nat)),
+    let s := pafter_ch self hist chs0 in
+    let r := leaves_ch s a chs in
+    size (behind a r.1) = size (behind a s) - length chs /\
+    elsewhere a r.1 = elsewhere a s /\ r.1 ⊆ s /\
+    length r.2 = length chs /\
+    forall j outs, r.2 !! j = Some outs ->
+      (j < size (behind a s) -> exists l, outs = [ToAgent l]) /\ (size (behind a s) <= j -> outs = []).
+Proof. intros self hist chs0 a chs. apply repeated_reports. exact (pafter_ch_keyed self hist chs0). Qed.
+Print Assumptions C20_repeated_reports.
+
+(* the predicate evaluated on the implementation is true of every model run,
+   whatever GetByHost chooses; and the model driven by the choices visible in
+   its own observations reproduces them *)
 Theorem C20_oracle_holds_of_model :
-  forall self hist, poracle_on self hist (model_prun self hist) = true.
+  forall self hist chs, poracle_on self hist (model_prun_ch self hist chs) = true.
 Proof. exact poracle_holds_of_model. Qed.
 Print Assumptions C20_oracle_holds_of_model.
+
+Theorem C20_driven_model_reproduces_itself :
+  forall self hist chs,
+    model_prun_driven self hist (model_prun_ch self hist chs) = model_prun_ch self hist chs.
+Proof. exact model_prun_ch_driven. Qed.
+Print Assumptions C20_driven_model_reproduces_itself.
